@@ -65,3 +65,63 @@ Section F64Agg.
     destruct (Hin _ _ E) as [->|H']; auto.
   Qed.
 End F64Agg.
+
+(** ** the sorted vector of [med] is sorted numerically *)
+From Coq Require Import Sorting.Sorted.
+From SC Require Import Proofs.KeyOrder.
+
+Section SortKey.
+  Context {A : Type}.
+  Variable key : A -> Z.
+  Definition kle (a b : A) : Prop := key a <= key b.
+
+  Lemma insert_perm_k x l : Permutation (x :: l) (insert key x l).
+  Proof.
+    induction l as [|y l IH]; simpl; [apply Permutation_refl|].
+    destruct (key x <=? key y); [apply Permutation_refl|].
+    eapply Permutation_trans; [apply perm_swap|]. now apply perm_skip.
+  Qed.
+  Lemma isort_perm_k l : Permutation l (isort key l).
+  Proof.
+    induction l as [|x l IH]; simpl; [constructor|].
+    eapply Permutation_trans; [apply perm_skip; exact IH|apply insert_perm_k].
+  Qed.
+  Lemma insert_sorted_k x l : StronglySorted kle l -> StronglySorted kle (insert key x l).
+  Proof.
+    induction 1 as [|y l HS IH Hy]; simpl; [constructor; constructor|].
+    destruct (key x <=? key y) eqn:E.
+    - apply Z.leb_le in E. constructor; [constructor; assumption|]. constructor; [exact E|].
+      rewrite Forall_forall in *. intros z Hz. specialize (Hy z Hz). unfold kle in *. lia.
+    - apply Z.leb_gt in E. constructor; [exact IH|].
+      rewrite Forall_forall in *. intros z Hz.
+      apply (Permutation_in _ (Permutation_sym (insert_perm_k x l))) in Hz.
+      destruct Hz as [<-|Hz]; [unfold kle; lia|now apply Hy].
+  Qed.
+  Lemma isort_sorted_k l : StronglySorted kle (isort key l).
+  Proof. induction l as [|x l IH]; simpl; [constructor|now apply insert_sorted_k]. Qed.
+End SortKey.
+
+Lemma no_nan_forall vs : existsb fis_nan vs = false -> Forall (fun v => v <> B754_nan) vs.
+Proof.
+  induction vs as [|v vs IH]; simpl; intros H; constructor.
+  - intros ->. discriminate H.
+  - apply IH. apply orb_false_iff in H. now destruct H.
+Qed.
+
+Lemma key_sorted_num l : Forall (fun v => v <> B754_nan) l -> StronglySorted (kle total_key) l -> StronglySorted num_le l.
+Proof.
+  intros NN S. induction S as [|a l S IH Ha]; constructor.
+  - apply IH. now inversion NN.
+  - inversion NN as [|? ? Na Nl]; subst. rewrite Forall_forall in *. intros b Hb.
+    apply key_le_num; auto. now apply Ha.
+Qed.
+
+(** without NaN: the vector [med] indexes is a permutation of the arguments sorted by numeric value (-0.0 before +0.0) *)
+Theorem sortF_spec vs : existsb fis_nan vs = false ->
+  Permutation vs (sortF vs) /\ StronglySorted num_le (sortF vs).
+Proof.
+  intros Hn. split; [apply isort_perm_k|].
+  apply key_sorted_num; [|apply isort_sorted_k].
+  pose proof (no_nan_forall vs Hn) as F. rewrite Forall_forall in *. intros v Hv. apply F.
+  eapply Permutation_in; [apply Permutation_sym; apply (isort_perm_k total_key vs)|exact Hv].
+Qed.
